@@ -255,7 +255,7 @@ func f(a int, b string) (int, string) {
 	xs[4] = %(X)s
 	s := "hello" + b
 	u := s[1:3]
-	m, k := g(%(X)s)
+	m, k := g0(%(X)s)
 	for i := 0; i < 2; i++ {
 		if i == 1 {
 			break
@@ -461,7 +461,7 @@ def run(res, b, tier, seed):
     MAIN = ('import lib "lib.tsh"\nvar %(v)s int = 100\nfunc %(f)s(n int) int {\n\treturn n * 2\n}\nfunc %(g)s(n int) int {\n\treturn %(f)s(n) + 1\n}\n'
             '%(v)s = %(f)s(%(v)s)\nprint(%(v)s, lib.Next(), lib.Next(), %(g)s(3), lib.Twice(4))\n')
     MAIN2 = ('import (\n\tlib "lib.tsh"\n\t"strings"\n)\nvar %(v)s int = 100\nfunc %(f)s(n int) int {\n\treturn n * 2\n}\n'
-             '%(v)s = %(f)s(%(v)s)\nprint(%(v)s, lib.Next(), strings.ToUpper("ab"), strings.Repeat("x", 2))\n')
+             '%(v)s = %(f)s(%(v)s)\nprint(%(v)s, lib.Next(), strings.TrimSpace(" ab "), strings.Repeat("x", 2))\n')
     spell = [("total", "stride", "plus"), ("counter", "step", "helper"), ("Total", "Next", "Twice"), ("lib", "Lib", "libx"),
              ("Counter", "Step", "Helper"), ("step", "counter", "next")]
     for i, (v, f, g) in enumerate(spell):
@@ -469,10 +469,10 @@ def run(res, b, tier, seed):
         cases.append(pipeline.Case("mf%d" % i, {"main.tsh": msrc.encode(), "lib.tsh": LIB.encode()},
                                    meta=dict(expected_out=["200 11 12 7 8"], expected_status=0, src=msrc, original=MAIN % dict(v="total", f="stride", g="plus"),
                                              renaming="main-file identifiers spelled %s, %s, %s next to an imported file that has names of these spellings" % (v, f, g), reserved=[])))
-    for i, (v, f) in enumerate([("total", "stride"), ("strings", "lib"), ("ToUpper", "Repeat"), ("s", "count"), ("result", "i")]):
+    for i, (v, f) in enumerate([("total", "stride"), ("strings", "lib"), ("TrimSpace", "Repeat"), ("s", "count"), ("result", "i")]):
         msrc = MAIN2 % dict(v=v, f=f)
         cases.append(pipeline.Case("ms%d" % i, {"main.tsh": msrc.encode(), "lib.tsh": LIB.encode()},
-                                   meta=dict(expected_out=["200 11 AB xx"], expected_status=0, src=msrc, original=MAIN2 % dict(v="total", f="stride"),
+                                   meta=dict(expected_out=["200 11 ab xx"], expected_status=0, src=msrc, original=MAIN2 % dict(v="total", f="stride"),
                                              renaming="main-file identifiers spelled %s, %s next to std/strings (its parameter, local and function names)" % (v, f), reserved=[])))
     # two different files with the SAME base name and equally spelled top-level names: what a name means does not depend on how the
     # files are called either (round 8: C10-A)
@@ -508,6 +508,20 @@ def run(res, b, tier, seed):
         cases.append(pipeline.Case("fc%d" % i, {"main.tsh": csrc.encode()},
                                    meta=dict(expected_out=["6 110 101"], expected_status=0, src=csrc, original=CASEFN % dict(f="total", g="grand", h="third"),
                                              renaming="functions spelled %s / %s / %s (case variants of one another), equal local names" % (f_, g_, h_), reserved=[])))
+    # range over a CALL (round 14: C10-G kept the call's result in a hidden, unregistered variable named after the index): a variable that is live
+    # across the loop, the index and the element variable take spellings built from each other's names and from the back-ends' prefixes
+    RANGECALL = ('func mk() []int {\n\treturn []int{20, 40, 60}\n}\nfunc twice(n int) int {\n\treturn n * 2\n}\n%(note)s := "keep"\n'
+                 'for %(i)s, %(v)s := range mk() {\n\tprint(%(note)s, %(i)s, twice(%(v)s) / 2)\n}\nprint(%(note)s)\n')
+    RANGECALL_FN = ('func mk() []int {\n\treturn []int{20, 40, 60}\n}\nfunc twice(n int) int {\n\treturn n * 2\n}\n'
+                    'func inner() string {\n\t%(note)s := "in"\n\tfor %(i)s, %(v)s := range mk() {\n\t\t%(note)s += itoa(%(i)s) + itoa(twice(%(v)s))\n\t}\n\treturn %(note)s\n}\nprint(inner())\n')
+    for i, (n_, i_, v_) in enumerate([("note", "i", "v"), ("_ri", "i", "v"), ("_rv", "i", "v"), ("_r", "i", "v"), ("note", "v0", "v"), ("note", "v1", "w"), ("_rk", "k", "e"),
+                                      ("_ridx", "idx", "val"), ("r_i", "i", "v"), ("_i_r", "i", "v"), ("i_v", "i", "v"), ("note", "h0", "v"), ("note", "a0", "v"),
+                                      ("rng", "i", "_ri"), ("_rnote", "note", "v")]):
+        for tmpl, tag, exp in ((RANGECALL, "top", ["keep 0 20", "keep 1 40", "keep 2 60", "keep"]), (RANGECALL_FN, "fn", ["in0401802120"])):
+            rsrc = tmpl % dict(note=n_, i=i_, v=v_)
+            cases.append(pipeline.Case("rc%s%d" % (tag, i), {"main.tsh": rsrc.encode()},
+                                       meta=dict(expected_out=exp, expected_status=0, src=rsrc, original=tmpl % dict(note="note", i="i", v="v"),
+                                                 renaming="range over a call (%s): live variable %s, index %s, element %s" % (tag, n_, i_, v_), reserved=[])))
     for role, t in ROLE_TEMPLATES.items():
         for i, nm in enumerate(["neutralname"] + [n for n in RESERVED_POOL if n not in KEYWORDS] + [n for n in LOOKALIKE_POOL if not is_reserved(n)]):
             rsrc = t % dict(X=nm)
@@ -573,6 +587,8 @@ def run(res, b, tier, seed):
     real = []
     for c, kind, detail in fails:
         if kind in ("rejected", "emit-failed"):
+            if c.meta.get("original") is not None and c.meta["src"] == c.meta["original"] and not c.meta.get("reserved"):
+                real.append((c, "directed program rejected in its ORIGINAL spelling (a broken template of this check, or a change of the language)", detail))
             continue                                   # "or makes transpilation fail with an error"
         # the known finding: a GLOBAL variable or a function spelled like a name the back-end or the shell owns, or a local
         # spelled like a helper / temporary of its own function; a local spelled like an unprefixed compiler name does not collide
